@@ -7,6 +7,7 @@ import (
 	"strings"
 
 	"github.com/pip-services3-gox/pip-services3-expressions-gox/calculator/parsers"
+	rio "github.com/pip-services3-gox/pip-services3-expressions-gox/io"
 	"github.com/pip-services3-gox/pip-services3-expressions-gox/tokenizers"
 
 	"verifharness/model"
@@ -36,6 +37,7 @@ func optionInput(r *mon.Rng, kind string) string {
 }
 
 var optionPatterns = []string{
+	strings.Repeat("/**/", 600) + "x", "a " + strings.Repeat("😀", 600) + " b", strings.Repeat("\uffff", 530) + "1", strings.Repeat(" /*c*/", 520), strings.Repeat("#c\n", 515) + "z", "1e309 2E+308 17976931348623159e292 1e308 " + strings.Repeat("9", 320),
 	"a /*c*/ b", "a /*c*/12", "/*c*/12", "/*c*/ш", "/*c*/😀", " /*c*/ ", "a 😀 b", "😀😀", "a😀", "😀 😀", " 😀 ", "1😀2", "/*a*//*b*/", "/*a*/ /*b*/", "'q'/*c*/'r'", "/*c*/'q'",
 	"# c\n12", "a # c\n b", " # c\n ", "#a\n#b\n", "a ￿ b", "￿12", "12￿", "￿￿ x", "/*c*/￿", "😀/*c*/", "  a  ", "\t\n 1 \r\n", "'it''s' \"x\"\"y\"",
 	"{{😀 ! c }}x", "{{ 😀!x}}", "{{! it's }}a{{b}}'c", "{{!'}}x'y", "{{ !\"q }}{{a}}\"", "{{!}}", "{{ ! }}", "a{{!c",
@@ -97,6 +99,29 @@ func buildOptionChecks(cfg *mon.Config, withPos bool) []*mon.Sub {
 			}
 			groups := expectedGroups(kind, base, m)
 			sig, detail := matchGroups(groups, got, withPos)
+			if sig == "" && !withPos {
+				// the same option set switched on only after the reader was attached
+				var late []tok
+				if p := mon.Try(func() {
+					t := newTokenizer(kind)
+					setOptions(t, 0)
+					t.SetReader(rio.NewStringScanner(input))
+					setOptions(t, m)
+					for n := 0; n < len(input)+5; n++ {
+						x := t.NextToken()
+						if x == nil {
+							break
+						}
+						late = append(late, tok{x.Type(), x.Value(), x.Line(), x.Column()})
+					}
+				}); p != nil {
+					c.FailPanic(kind+" tokenizer with options set after the reader", p)
+					continue
+				}
+				if s2, d2 := matchGroups(groups, late, false); s2 != "" {
+					sig, detail, got = s2+" (options switched on after SetReader)", d2, late
+				}
+			}
 			if sig != "" {
 				if withPos && !strings.Contains(sig, "position") && !strings.Contains(sig, "column") {
 					c.Count("stream mismatch (reported by C15)")
@@ -216,6 +241,25 @@ func buildOptionChecks(cfg *mon.Config, withPos bool) []*mon.Sub {
 		Exec: exec,
 	})
 	if withPos {
+		subs = append(subs, &mon.Sub{
+			Name: "huge-coordinates", Rule: "one line of 70 000 characters (a long word, then short tokens) and 66 000 short lines (not on the CSV configurations), option-free and under two option sets: columns and lines beyond 65 535 must still be reported exactly x " + rule,
+			Exhaustive: true, DistinctByGen: true, Floor: 10,
+			Gen: func(emit func(string)) {
+				wide := strings.Repeat("w", 69990) + " 12 'q' <= x\ny 7"
+				// lines that end in a blank: no state has to push a line break back (un-reading a line break makes
+				// the scanner recount from the start, which is quadratic over 66 000 lines; the CSV symbol state always does)
+				tall := strings.Repeat("a \n", 66000) + "zz 9 <= 'q'"
+				for _, k := range allTokenizers {
+					for _, m := range []string{"0", "64", "127"} {
+						emit(k + "\x00" + m + "\x00" + wide)
+						if !strings.HasPrefix(k, "csv") {
+							emit(k + "\x00" + m + "\x00" + tall)
+						}
+					}
+				}
+			},
+			Exec: exec,
+		})
 		subs = append(subs, c12ErrorPositions(cfg))
 	}
 	if !withPos {
@@ -248,9 +292,16 @@ func c12ErrorPositions(cfg *mon.Config) *mon.Sub {
 			seps := []string{" ", "  ", "\t", "\n", "\r\n", "\n\r", "\r", " \n ", "/* c */ ", "/* a\nb */"}
 			for i := 0; i < cfg.N(3000, 100000); i++ {
 				toks := model.Tokens(g.typed(1+r.Intn(3), mon.Pick(r, []string{"int", "bool", "str"})), nil)
-				mode := r.Intn(3)
+				mode := r.Intn(4)
 				at := -1
 				stray := ""
+				if mode == 3 {
+					// a stray constant after the last argument of a call: the missing ')' is reported at that token
+					inner := model.Tokens(g.typed(r.Intn(2), "int"), nil)
+					toks = append(append([]string{mon.Pick(r, []string{"Max", "Min", "Sum"}), "(", "a", ","}, inner...), ")")
+					at = len(toks) - 1
+					stray = mon.Pick(r, []string{"3", "zz", "'s'", "]"})
+				}
 				switch mode {
 				case 0:
 					at = r.Intn(len(toks) + 1)
